@@ -100,7 +100,9 @@ def split_n_correspondence(ctx):
 DHEADER = ("From Coq Require Import List Bool Arith QArith.\nFrom QV Require Import CaseLib DcspModel.\nImport ListNotations.\n"
            "Definition qgate_eqb (g h : qgate) : bool := match g, h with\n"
            " | QRY a q, QRY b r => Qeq_bool a b && Nat.eqb q r | QRZ a q, QRZ b r => Qeq_bool a b && Nat.eqb q r\n"
-           " | QCSWAP c a b, QCSWAP c' a' b' => Nat.eqb c c' && Nat.eqb a a' && Nat.eqb b b' | _, _ => false end.\n")
+           " | QCSWAP c a b, QCSWAP c' a' b' => Nat.eqb c c' && Nat.eqb a a' && Nat.eqb b b'\n"
+           " | QEnt e c t, QEnt e' c' t' => (match e, e' with Sem.EntCX, Sem.EntCX | Sem.EntCZ, Sem.EntCZ => true | _, _ => false end) && Nat.eqb c c' && Nat.eqb t t'\n"
+           " | _, _ => false end.\n")
 
 
 def dcsp_correspondence(ctx):
@@ -167,7 +169,7 @@ def dcsp_correspondence(ctx):
             ctx.count("corr:dcsp:" + kind, key=("dcsp", n, kind, v.tobytes()), nontrivial=n >= 2,
                       sample=dict(case, gates=len(items), qubits=circ.num_qubits) if n == 3 else None)
             out = coq_list([str(q) for q in range(n - 1, -1, -1)])
-            lines.append(f"(list_eqb qgate_eqb (bottom_up_q {T}) {coq_list(items)} && qbalanced {n} {T} && nodupb (qqubits {T}) "
+            lines.append(f"(list_eqb qgate_eqb (bdsp_gates_q {T}) {coq_list(items)} && qbalanced {n} {T} && nodupb (qqubits {T}) && nosub {T} "
                          f"&& list_eqb Nat.eqb (qchain {T}) {out})")
             if bad:
                 ctx.mismatch("C11 contract (dcsp): " + bad[0], case)
